@@ -20,7 +20,8 @@ ASSUMPTIONS = ["values for which the pickler itself does not round-trip (e.g. tu
 EXHAUSTIVE = {"quick": False, "thorough": False}
 
 KEYS = ["k", "a:b", "k_1", "", "with space", "1", "_", "md5:x_y", "üñ"]
-BYTES = [b"", b"123", b"0", b"md5:x_y", b"_", b":", b"bytes:z", b"sha1:deadbeef_payload", b"\x00\xff\x80", b"abc", b"12a", b"sum:1_2"]
+BYTES = [b"", b"123", b"0", b"md5:x_y", b"_", b":", b"bytes:z", b"sha1:deadbeef_payload", b"\x00\xff\x80", b"abc", b"12a", b"sum:1_2",
+         b"abc ", b"line\n", b"\t", b" x ", b"\r\n"]      # leading / trailing ASCII whitespace is part of the value
 ATOMS = [None, True, False, 0, 1, -7, 2 ** 80, -(2 ** 70), 1.5, -0.0, 1e300, "", "x", "123", "_", ":", "a_b:c", "md5:x_y", "été"]
 
 
@@ -119,8 +120,9 @@ def run_impl(case):
                 await mem.set_many({"zz0": 41, case["key"]: v, "zz1": 43})       # the value travels between two other pairs
                 st2 = mem.store[case["key"]][1]
                 try:
-                    r = await mem.get_many("zz-missing", case["key"], "zz1", "zz0", default=serrun.DEFAULT)
-                    aligned = len(r) == 4 and r[0] is serrun.DEFAULT and type(r[2]) is int and r[2] == 43 and type(r[3]) is int and r[3] == 41
+                    r = await mem.get_many("zz-missing", case["key"], "zz1", "zz0", "zz1", default=serrun.DEFAULT)      # one key is asked for twice: one answer per position
+                    aligned = (len(r) == 5 and r[0] is serrun.DEFAULT and type(r[2]) is int and r[2] == 43 and type(r[3]) is int and r[3] == 41
+                               and type(r[4]) is int and r[4] == 43)
                     out["many"] = r[1] if aligned else {"exc": "MISALIGNED " + repr(r)[:60]}
                 except Exception as e:  # noqa
                     out["many"] = {"exc": type(e).__name__}
